@@ -34,7 +34,7 @@ Judge(rows, k) ==
         mode |-> IF off = {} THEN "" ELSE row.runs[j0][1],
         at |-> IF off = {} THEN 0 ELSE k0,
         want |-> IF off = {} \/ k0 \notin DOMAIN want THEN <<>> ELSE want[k0]]
-\* (an operator with a parameter, so that TLC does not evaluate it while it is still processing the constant Rows)
+\* (an operator with a parameter: TLC evaluates it in the ASSUME only, not already while it processes the constant definitions)
 Bad(rows) == SelectSeq([k \in 1..Len(rows) |-> Judge(rows, k)], LAMBDA r : r.failed # <<>> \/ r.drift)
 ASSUME JsonSerialize(IOEnv.VF_OUT, [n |-> Len(Rows), bad |-> Bad(Rows)])
 =============================================================================
